@@ -16,7 +16,7 @@ func genC05(r *Rng, n int, tier string, emit func(Case)) {
 		rr := r.Fork()
 		hs := hostileString(rr)
 		data := J{"h": hs, "num": rr.Range(-5, 900), "frac": 2.5, "t": true, "f": false, "z": nil,
-			"cls": []interface{}{"a", "b"}, "clsMixed": []interface{}{"x", false, nil, "y"}, "word": "w1",
+			"ts": 1700000000123, "cls": []interface{}{"a", "b"}, "clsMixed": []interface{}{"x", false, nil, "y"}, "word": "w1",
 			"sp":      J{"data-a": "1", "title": hs, "zz": "last", "aa": "first"},
 			"spBool":  J{"hidden": true, "lang": "en", "required": false},
 			"spClass": J{"class": "from-spread", "id": "i9"}}
@@ -32,7 +32,7 @@ func genC05(r *Rng, n int, tier string, emit func(Case)) {
 					continue
 				}
 				used[nm] = true
-				lit := []string{"plain", "a b", " pad ", "x<y", "q\"q", "it's", "&", ""}[rr.Intn(8)]
+				lit := []string{"plain", "a b", " pad ", "x<y", "q\"q", "it's", "&", "", "größe", "日本 語", "é<ü", "Zoë's", "naïve & \"ça\""}[rr.Intn(13)]
 				attrs = append(attrs, nAttr(nm, eStr(lit), true))
 				what += nm + "=lit "
 			case 2, 3: // hostile data string
@@ -49,7 +49,9 @@ func genC05(r *Rng, n int, tier string, emit func(Case)) {
 					continue
 				}
 				used[nm] = true
-				v := []J{eId("num"), eNum(strconv.Itoa(rr.Range(0, 99))), eBin("+", eId("num"), eNum("1")), eId("frac"), eNum("1.5")}[rr.Intn(5)]
+				// integer literals of every size a timestamp, an order number or an id has (they must come out digit for digit)
+				big := []string{"1700000000123", "20240131000042", "10000000000", "9007199254740991", "123456789012", "99999999999", "4294967296"}[rr.Intn(7)]
+				v := []J{eId("num"), eNum(strconv.Itoa(rr.Range(0, 99))), eBin("+", eId("num"), eNum("1")), eId("frac"), eNum("1.5"), eNum(big), eUn("-", eNum(big)), eId("ts")}[rr.Intn(8)]
 				attrs = append(attrs, nAttr(nm, v, true))
 				what += nm + "=num "
 			case 5: // booleans / null / undefined
@@ -72,7 +74,7 @@ func genC05(r *Rng, n int, tier string, emit func(Case)) {
 					continue
 				}
 				used[nm] = true
-				attrs = append(attrs, nAttr(nm, eStr([]string{"raw", "a-b", "x y"}[rr.Intn(3)]), false))
+				attrs = append(attrs, nAttr(nm, eStr([]string{"raw", "a-b", "x y", "größe", "überblick", "日本", "höhe ß"}[rr.Intn(7)]), false))
 				what += nm + "=raw "
 			default:
 				nm := c05names[rr.Intn(len(c05names))]
